@@ -810,6 +810,9 @@ class Judge:
                           f"entries (admissible results {adm})")
             elif why:
                 self.fail("reachable_states", "MAX_STATES-cutoff", f"MAX_STATES={c}: returned {sorted(got)}: {why} (admissible {adm})")
+            elif got in self.cuts1[k]:      # explained by the machine variant that also lists zero-probability entries
+                self.ctx.drift("reachable_states-cutoff-lists-zero-probability-initial-entry",
+                               {"case": digest(self.case), "cut": c, "got": sorted(got)})
             else:       # only reachable states, limit honoured: which states were expanded first is implementation-shaped
                 self.ctx.drift("reachable_states-cutoff-machine", {"case": digest(self.case), "cut": c, "got": sorted(got)})
 
